@@ -470,6 +470,9 @@ impl<T: RealNumber + Scalar + AddAssign + SubAssign + MulAssign + DivAssign + Su
     }
 
     fn max_diff(&self, other: &Self) -> T {
+        if self.shape() != other.shape() {
+            panic!("Can't compare matrices of different sizes.");
+        }
         let mut max_diff = T::zero();
         for r in 0..self.nrows() {
             for c in 0..self.ncols() {
